@@ -143,6 +143,50 @@ fn check_conflict(c: &PairCase, st: &mut Stats) -> Result<(), Failure> {
 }
 
 #[derive(Clone, Debug, Serialize, Deserialize)]
+struct TripleCase {
+    first: MRange,
+    second: MRange,
+    third: MRange,
+}
+
+/// three registrations on one method and path: the third conflicts iff it
+/// shares a version with *either* of the two (disjoint) earlier ones
+fn check_triple(c: &TripleCase, st: &mut Stats) -> Result<(), Failure> {
+    let mut api: ApiDescription<DynCtx> = ApiDescription::new();
+    for (i, r) in [&c.first, &c.second].iter().enumerate() {
+        let o = try_register(&mut api, &ep(&format!("op{}", i), "PUT", r), &vec![], None, &[]);
+        ensure!(o.accepted(), "register-disjoint", "[{}] after [{}] refused: {:?}", c.second.text(), c.first.text(), o);
+    }
+    let o3 = try_register(&mut api, &ep("op3", "PUT", &c.third), &vec![], None, &[]);
+    let with_first = c.first.overlaps(&c.third);
+    let with_second = c.second.overlaps(&c.third);
+    let expected = with_first || with_second;
+    st.eval();
+    st.count(match (with_first, with_second) {
+        (false, false) => "triple:disjoint",
+        (true, false) => "triple:overlaps-first",
+        (false, true) => "triple:overlaps-second-only",
+        (true, true) => "triple:overlaps-both",
+    });
+    if with_second && !with_first {
+        st.nontrivial(hash_of(&(&c.first, &c.second, &c.third)));
+    }
+    st.sample(|| json!({"first": c.first.text(), "second": c.second.text(), "third": c.third.text(), "conflict": expected}));
+    ensure!(
+        !o3.accepted() == expected,
+        format!("conflict-{}:third-registration", if expected { "missed" } else { "spurious" }),
+        "registered [{}], then [{}]; third [{}] shares a version with the first: {}, with the second: {}; registration said {:?}",
+        c.first.text(),
+        c.second.text(),
+        c.third.text(),
+        with_first,
+        with_second,
+        o3
+    );
+    Ok(())
+}
+
+#[derive(Clone, Debug, Serialize, Deserialize)]
 struct CtorCase {
     a: MVer,
     b: MVer,
@@ -441,6 +485,22 @@ pub fn run(ctx: &mut Ctx) {
         }
     }
     ctx.enumerate("conflict", pairs, true, check_conflict);
+
+    // all triples over a 4-version sub-pool (all 16+ ranges): first two disjoint, third arbitrary
+    let sub: Vec<MVer> = vec![p[0].clone(), p[2].clone(), p[4].clone(), p[6].clone()];
+    let sub_ranges = all_ranges(&sub);
+    let mut triples = vec![];
+    for a in &sub_ranges {
+        for b in &sub_ranges {
+            if a.overlaps(b) {
+                continue;
+            }
+            for c3 in &sub_ranges {
+                triples.push(TripleCase { first: a.clone(), second: b.clone(), third: c3.clone() });
+            }
+        }
+    }
+    ctx.enumerate("conflict_triples", triples, true, check_triple);
 
     let mut ctor = vec![];
     for a in &probes {
